@@ -163,3 +163,22 @@ Proof.
   rewrite Hs. field. assumption.
 Qed.
 End ZetaClosed.
+
+(* ---------------- digamma at 1/4 - m ---------------- *)
+Section PsiQuarter.
+Variable psi : R -> R.
+Hypothesis psi_quarter : psi (1 / 4) - psi 1 = - PI / 2 - 3 * ln 2.
+Hypothesis psi_rec_negq : forall m : nat, psi (1 / 4 - INR (S m) + 1) = psi (1 / 4 - INR (S m)) + 1 / (1 / 4 - INR (S m)).
+
+Lemma psi_mquarter_closed : forall m, psi (1 / 4 - INR m) - psi 1 = psi_mquarter_diff m.
+Proof.
+  unfold psi_mquarter_diff. induction m as [|m IH].
+  - simpl. rewrite Rminus_0_r, Rplus_0_r. exact psi_quarter.
+  - pose proof (psi_rec_negq m) as H. pose proof (pos_INR m).
+    replace (1 / 4 - INR (S m) + 1) with (1 / 4 - INR m) in H by (rewrite S_INR; ring).
+    rewrite sumf_S, IZR_of_nat.
+    replace (psi (1 / 4 - INR (S m)) - psi 1)
+      with (psi (1 / 4 - INR m) - psi 1 - 1 / (1 / 4 - INR (S m))) by (rewrite H; ring).
+    rewrite IH, S_INR. field. split; lra.
+Qed.
+End PsiQuarter.
